@@ -637,6 +637,42 @@ func c20Round(run *vfRun, w *vfWorld, r, nVal int) {
 				run.Count(tg.name+"_removal_then_replacement_loaded", 1)
 			}
 		}
+		// an EMPTY e-mails file is a version: it is how an administrator revokes everybody. Once it is in place nobody may be
+		// admitted any more — not even the entry that is present in every other version — and the next version loads again.
+		// (An htpasswd file without a single valid entry is, by the loader's own definition, a version that fails to load:
+		// it belongs to the malformed versions, whose handling the regular phase judges.)
+		if tg.name == "emails" && (r == 0 || run.Env.Thorough()) {
+			for _, empty := range []string{"", "\n"} {
+				if err := c20WriteFile(tg.path, empty, 8000); err != nil {
+					run.T.Fatalf("write: %v", err)
+				}
+				revoked := false
+				for tries := 0; tries < 1000; tries++ { // up to ~5 s
+					if ans, ok := tg.ask(c20Probe{"always", 0}, false); ok && !ans {
+						revoked = true
+						break
+					}
+					atomic.AddInt64(&c20Progress, 1)
+					time.Sleep(5 * time.Millisecond)
+				}
+				run.Eval(fmt.Sprintf("%s|empty version (%d bytes)|final state", tg.name, len(empty)))
+				if !revoked {
+					run.Violation("c20:empty-version-never-in-force", fmt.Sprintf("%s: the file was replaced by an empty version (%d bytes); 5 s later the entry of the previous contents is still admitted", tg.name, len(empty)),
+						map[string]interface{}{"flags": p.Flags, "file": tg.name})
+				} else {
+					run.Count(tg.name+"_empty_version_in_force", 1)
+				}
+				if err := c20WriteFile(tg.path, tg.content(2), 8002); err != nil {
+					run.T.Fatalf("write: %v", err)
+				}
+				for tries := 0; tries < 1000; tries++ {
+					if ans, ok := tg.ask(c20Probe{"vuser", 2}, false); ok && ans {
+						break
+					}
+					time.Sleep(5 * time.Millisecond)
+				}
+			}
+		}
 		if maxInvisibleRun >= 3 {
 			run.Violation("c20:reload-never-visible", fmt.Sprintf("%s: %d consecutive well-formed replacements never became visible within the bound (reload lost)", tg.name, maxInvisibleRun), map[string]interface{}{"flags": p.Flags, "file": tg.name})
 		} else if maxInvisibleRun > 0 {
